@@ -1,6 +1,6 @@
 """Growth beyond the listed properties (DESIGN.md section 11): specifications of further behaviour of the library,
 model-checked and replayed into the code like the property checks, but *not* registered in MANIFEST.json (no
-listed property owns their verdicts).  usage: python -m harness.growth [lifecycle] [chainqueries] [amptree] [decwarnings]"""
+listed property owns their verdicts).  usage: python -m harness.growth [lifecycle] [chainqueries] [amptree] [decwarnings] [syntaxneg]"""
 from __future__ import annotations
 
 import io
@@ -458,9 +458,128 @@ def decwarnings(sim=600):
     return rc
 
 
+# ---------------------------------------------------------------------------------------------- DecSyntaxNeg
+_ARITY = {"Alias": ["LABEL", "LABEL"], "ChargeConj": ["LABEL", "LABEL"], "CopyDecay": ["LABEL", "LABEL"],
+          "Define": ["LABEL", "NUM"], "CDecay": ["LABEL"], "yesPhotos": [], "noPhotos": [], "Decay": ["LABEL"], "ModelAlias": ["LABEL"]}
+
+
+def _canon_text(cz, denote):
+    """canonical .dec text of a statement list as Denote gives it"""
+    def label(v):
+        # a word of another kind standing where a LABEL is read (DecSyntax.LabelText)
+        for pre, f in (("KW:", str), ("NUM:", cz.lit), ("MODEL:", cz.model), ("PHOTOS:", str)):
+            if v.startswith(pre):
+                return f(v[len(pre):])
+        return cz.name(v)
+
+    def val(kind, v):
+        return label(v) if kind == "LABEL" else cz.lit(v) if kind == "NUM" else cz.model(v) if kind == "MODEL" else v
+
+    def body(ln):
+        head = cz.model(ln["mn"]) if ln["mk"] == "model" else label(ln["mn"])
+        return " ".join([head] + [val(x["k"], x["v"]) for x in ln["ps"]]) + ";"
+    out = []
+    for st in denote:
+        k = st["k"]
+        args = [val(kind, v) for kind, v in zip(_ARITY[k], st["args"])]
+        if k == "Decay":
+            out.append("Decay " + args[0])
+            for ln in st["lines"]:
+                out.append("  " + " ".join([cz.lit(ln["bf"])] + [label(d) for d in ln["ds"]] + (["PHOTOS"] if ln["ph"] else [])
+                                           + [body(ln)]))
+            out.append("Enddecay")
+        elif k == "ModelAlias":
+            out.append("ModelAlias " + args[0] + " " + body(st["lines"][0]))
+        else:
+            out.append(" ".join([k] + args))
+    return "\n".join(out) + "\n"
+
+
+def _neg_case(args):
+    import random
+    from . import decio, c02
+    cid, rec, seed = args
+    cz = decio.Concretiser(random.Random(seed), readable=True)
+    text = c02.render_items(cz, rec["items"], random.Random(seed))
+
+    def snap(t):
+        p, err, _ = decio.parse_text(t)
+        if p is None:
+            return None, type(err).__name__
+        return decio.full_snapshot(p), None
+    s1, e1 = snap(text)
+    out = {"script": rec["script"], "base": rec["base"], "accepts": rec["accepts"], "undefined": rec["undefined"],
+           "aliasofalias": rec["aliasofalias"], "text": text, "raised": e1, "verdict": "ok", "detail": ""}
+    expect_refusal = (not rec["accepts"]) or rec["undefined"]
+    if rec["aliasofalias"]:
+        out["verdict"] = "not-judged"          # alias of an alias: outside every statement (DESIGN section 4)
+    elif expect_refusal and s1 is not None:
+        out["verdict"] = "accepted-a-text-outside-the-language"
+    elif not expect_refusal and s1 is None:
+        out["verdict"] = "refused-a-text-of-the-language"
+    elif not expect_refusal:
+        ctext = _canon_text(cz, rec["denote"])
+        s2, e2 = snap(ctext)
+        out["canon"] = ctext
+        if s2 is None:
+            out["verdict"], out["detail"] = "MACHINERY canonical text refused", e2
+        else:
+            d = c02.first_diff(s2, s1)
+            if d:
+                out["verdict"], out["detail"] = "read-differently-from-what-the-automaton-denotes", d
+    return out
+
+
+def syntaxneg(maxedits=2):
+    """DecSyntaxNeg.tla: damaged base files; the real parser must agree with the item automaton on both sides of the border"""
+    ensure_repo_on_path()
+    from .core import pmap
+    wd = tlc.new_workdir("neg")
+    rc = 0
+    try:
+        recs = []
+        for base in (1, 2):
+            for me in range(1, maxedits + 1):
+                cfg = tlc.cfg_text(init="Init", next_="NegNext", constants=dict(Base=base, MaxEdits=me, EmitMode="none"),
+                                   invariants=["NeutralDamageIsNeutral"])
+                r = tlc.run("DecSyntaxNeg", cfg, workdir=wd, timeout=1800)
+                got = [x["v"] for x in r.by_tag("neg")]
+                print(f"DecSyntaxNeg base {base}, {me} edit(s): {len(got)} damaged texts, {sum(1 for g in got if g['accepts'])} still in the "
+                      f"language, violated={r.violated}")
+                if r.violated:
+                    rc = 1
+                recs += got
+            for comp in ("NeverRefused", "NeverAcceptedWithOtherMeaning"):
+                r2 = tlc.run("DecSyntaxNeg", tlc.cfg_text(init="Init", next_="NegNext", constants=dict(Base=base, MaxEdits=1, EmitMode="none"),
+                                                          invariants=[comp]), workdir=wd, keep_records=False)
+                if comp not in r2.violated:
+                    print(f"  MACHINERY: reachability companion {comp} not violated")
+                    return 2
+        cases = pmap(_neg_case, [(i, r, 31 * i + 7) for i, r in enumerate(recs)])
+        tally = {}
+        for c in cases:
+            tally[c["verdict"]] = tally.get(c["verdict"], 0) + 1
+        print(f"syntaxneg: {len(cases)} damaged texts replayed: {tally}")
+        if any(v.startswith("MACHINERY") for v in tally):
+            rc = 2
+        bad = [c for c in cases if c["verdict"] not in ("ok", "not-judged")]
+        seen = set()
+        for c in bad:
+            key = (c["verdict"], c["base"], json.dumps(c["script"][-1:]))
+            if key in seen or len(seen) > 12:
+                continue
+            seen.add(key)
+            print("  DISAGREEMENT", json.dumps({k: c[k] for k in ("verdict", "base", "script", "detail", "raised", "text")})[:900])
+        if bad and rc == 0:
+            rc = 1
+    finally:
+        tlc.cleanup(wd)
+    return rc
+
+
 if __name__ == "__main__":
-    which = sys.argv[1:] or ["lifecycle", "chainqueries", "amptree", "decwarnings"]
+    which = sys.argv[1:] or ["lifecycle", "chainqueries", "amptree", "decwarnings", "syntaxneg"]
     rc = 0
     for w in which:
-        rc |= {"lifecycle": lifecycle, "chainqueries": chainqueries, "amptree": amptree, "decwarnings": decwarnings}[w]()
+        rc |= {"lifecycle": lifecycle, "chainqueries": chainqueries, "amptree": amptree, "decwarnings": decwarnings, "syntaxneg": syntaxneg}[w]()
     sys.exit(rc)
